@@ -13,6 +13,18 @@ PROPS = {
             {"name": "indexall", "pkg": ".", "run": "^TestVerifC01$", "timeout": "40m", "timeout_thorough": "180m"},
         ],
     },
+    "C02": {
+        "level": "exploration",
+        "level_text": "Every archived slot and signature of generated epochs (incl. epoch 0 with genesis, multi-frame payloads, skipped slots, vote/failed/v0 transactions) is requested through JSON-RPC (4 encodings) and gRPC (unary and the bidirectional Get) for every non-empty subset of loaded epochs and search concurrency 1, 2, NumCPU, from 16 client goroutines; responses are compared with the generator's model field by field.",
+        "level_note": "JSON `json` encoding is compared on signatures, account keys, fee and err only; slot 0's blockTime/previousBlockhash are documented Solana-compatible special cases and not compared; rewards are a diagnostic",
+        "technique": "runtime monitoring: generated epochs + model oracle over real handlers, concurrent clients (race detector in the thorough tier)",
+        "rule": "see parts",
+        "race_allow": [r"main\.\(\*MultiEpoch\)", r"main\.\(\*Epoch\)", r"main\.FirstSuccess", r"/huge-cache\.", r"/compactindexsized\.", r"/bucketteer\.", r"/tooling\."],
+        "runs": [
+            {"name": "rpc", "pkg": ".", "run": "^TestVerifC02$", "timeout": "40m", "timeout_thorough": "120m", "tiers": ("quick",)},
+            {"name": "rpc-race", "pkg": ".", "run": "^TestVerifC02$", "race": True, "timeout": "240m", "timeout_thorough": "240m", "tiers": ("thorough",), "env": {"VERIF_PART_SUFFIX": "-race"}},
+        ],
+    },
     "C18": {
         "level": "exploration",
         "level_text": "Every feasible completion order of 1..6 gated jobs x every outcome vector x every concurrency limit is executed against the real FirstSuccess (plain and under the race detector); the oracle is the statement itself (value of a finished succeeding job / complete error list / returns). Exhaustive inside that scope, nothing beyond it.",
